@@ -190,6 +190,31 @@ fn cmp_like_alphabet() -> Vec<V> {
     ]
 }
 
+/// Scenario family "a component the metric ignores": [R^2, SO(2)] with weights (1, 0) and an obstacle that
+/// lives on the ignored component (the angular arc [1, 2]): states at distance exactly 0 from each other
+/// can differ in validity. A motion of length 0 still has an end state that must be validated.
+pub fn zero_weight_scenarios(prop: &str, planners: &[Pk]) -> Vec<Scenario> {
+    let b = base_cmp();
+    let a = |x: f64, y: f64, t: f64| cmp_r2so2(x, y, t);
+    let alphabet = vec![a(0.5, 2.0, 0.0), a(0.5, 2.0, 1.5), a(1.5, 2.0, 0.0), a(1.5, 2.0, 1.5), a(2.5, 2.0, 0.0), a(2.5, 2.0, 1.5), a(3.5, 2.0, 0.0), a(3.5, 2.0, 1.5), a(1.5, 3.2, 0.5), a(0.5, 2.0, 0.0)];
+    let mut out = Vec::new();
+    for &pk in planners {
+        for sm in [1.0, 1.6] {
+            let mut sc = b.scenario(WorldSpec { name: "arc-on-ignored-component".into(), obst: vec![ObstSpec::Arc(1.0, 2.0)] }, b.params(pk, if pk == Pk::Prm { 1.6 } else { sm }, 2.5, 0.0), &format!("{prop}/Compound/zero-weight/{}x{sm}", pk.name()));
+            sc.spec = Spec::Cmp {
+                parts: vec![Spec::Rv { dim: 2, bounds: Some(vec![(0.0, 4.0), (0.0, 4.0)]), frac: None }, Spec::So2 { bounds: None, frac: None }],
+                weights: vec![1.0, 0.0],
+            };
+            sc.alphabet = alphabet.clone();
+            sc.start = alphabet[0].clone();
+            sc.goal_balls = vec![(alphabet[6].clone(), 0.3)];
+            sc.goal_samples = vec![alphabet[6].clone(), alphabet[7].clone()];
+            out.push(sc);
+        }
+    }
+    out
+}
+
 pub fn base_cmp() -> Base {
     Base {
         kit: "Compound",
